@@ -379,3 +379,109 @@ pub fn cmp_edge(args: &[String]) {
     }
     rep.write(&args[1]);
 }
+
+// ---------------------------------------------------------------------------------------------
+// C11: totality corpus spec/expr/ExprTot.tla
+// ---------------------------------------------------------------------------------------------
+fn tot_value(name: &str) -> Option<Value> {
+    use std::sync::Arc;
+    let arr = |v: Vec<Value>| Value::Array(Box::new(v));
+    Some(match name {
+        "MIN" => Value::Int(i64::MIN), "MINP1" => Value::Int(i64::MIN + 1), "NEG1" => Value::Int(-1), "ZERO" => Value::Int(0),
+        "ONE" => Value::Int(1), "TWO" => Value::Int(2), "SIXTYFOUR" => Value::Int(64), "MAX" => Value::Int(i64::MAX),
+        "NAN" => Value::Float(f64::NAN), "INF" => Value::Float(f64::INFINITY), "NINF" => Value::Float(f64::NEG_INFINITY),
+        "NEGZERO" => Value::Float(-0.0), "F15" => Value::Float(1.5), "FBIG" => Value::Float(1e308), "FNEG" => Value::Float(-2.5),
+        "EMPTYSTR" => Value::Str("".into()), "ABC" => Value::Str("abc".into()), "UNI" => Value::Str("h\u{e9}llo\u{20ac}\u{1f600}".into()),
+        "NUMSTR" => Value::Str("9223372036854775808".into()),
+        "TRUE" => Value::Bool(true), "FALSE" => Value::Bool(false), "NULL" => Value::Null,
+        "EMPTYARR" => arr(vec![]), "ARR12" => arr(vec![Value::Int(1), Value::Int(2)]),
+        "ARRNEST" => arr(vec![arr(vec![Value::Int(i64::MAX), Value::Int(i64::MAX)]), arr(vec![])]),
+        "ARRMIX" => arr(vec![Value::Int(i64::MAX), Value::Float(f64::NAN), Value::Str("x".into()), Value::Null, Value::Int(i64::MAX)]),
+        "EMPTYMAP" => Value::Map(Box::new(Default::default())),
+        "MAP1" => { let mut m: indexmap::IndexMap<Arc<str>, Value, _> = varpulis_core::value::FxIndexMap::default(); m.insert("a".into(), Value::Int(i64::MAX)); m.insert("b".into(), arr(vec![Value::Null])); Value::Map(Box::new(m)) }
+        "TS" => Value::Timestamp(i64::MAX), "DUR" => Value::Duration(u64::MAX),
+        "MISSING" | "NONE" => return None,
+        n => panic!("leaf {n}"),
+    })
+}
+
+fn tot_source(k: &str, op: &str, arity: usize) -> Option<String> {
+    let a = ["x", "y", "z"];
+    Some(match k {
+        "bin" => {
+            let s = match op { "add" => "+", "sub" => "-", "mul" => "*", "div" => "/", "mod" => "%", "pow" => "**", "lt" => "<", "le" => "<=", "gt" => ">", "ge" => ">=",
+                "eq" => "==", "ne" => "!=", "and" => "and", "or" => "or", "xor" => "xor", "in" => "in", "notin" => "not in", _ => return None };
+            format!("(x {s} y)")
+        }
+        "un" => match op { "neg" => "(-x)".into(), "not" => "(not x)".into(), "bitnot" => "(~x)".into(), _ => return None },
+        "call" => format!("{op}({})", a[..arity].join(", ")),
+        _ => return None,
+    })
+}
+
+fn tot_expr(k: &str, op: &str, arity: usize) -> Expr {
+    use varpulis_core::ast::Arg;
+    let id = |n: &str| Expr::Ident(n.into());
+    match k {
+        "bin" => Expr::Binary {
+            op: match op { "pow" => BinOp::Pow, "xor" => BinOp::Xor, "in" => BinOp::In, "notin" => BinOp::NotIn, o => binop(o) },
+            left: Box::new(id("x")), right: Box::new(id("y")) },
+        "un" => Expr::Unary { op: match op { "neg" => UnaryOp::Neg, "not" => UnaryOp::Not, _ => UnaryOp::BitNot }, expr: Box::new(id("x")) },
+        _ => Expr::Call { func: Box::new(id(op)), args: ["x", "y", "z"][..arity].iter().map(|n| Arg::Positional(id(n))).collect() },
+    }
+}
+
+/// args: cases.ndjson report.json
+pub fn total(args: &[String]) {
+    use std::collections::BTreeMap;
+    let cases = read_cases(&args[0]);
+    let mut rep = Report::new();
+    let fns = FxHashMap::default();
+    let binds: FxHashMap<String, Value> = FxHashMap::default();
+    let cx = Ctx { rt: tokio::runtime::Builder::new_current_thread().enable_all().build().unwrap() };
+    // group by expression shape so that one Engine serves all operand tuples of that shape
+    let mut groups: BTreeMap<(String, String, usize), Vec<&J>> = BTreeMap::new();
+    for c in &cases {
+        let arity = if c["z"] != "NONE" { 3 } else if c["y"] != "NONE" { 2 } else { 1 };
+        groups.entry((c["k"].as_str().unwrap().into(), c["op"].as_str().unwrap().into(), arity)).or_default().push(c);
+    }
+    for ((k, op, arity), cs) in &groups {
+        let expr = tot_expr(k, op, *arity);
+        let src = tot_source(k, op, *arity);
+        let mk_engine = |src: &str| -> Option<(varpulis_runtime::engine::Engine, tokio::sync::mpsc::Receiver<Event>)> {
+            let vpl = format!("stream W = B\n    .where({src})\n    .emit(ok: 1)\nstream E = B\n    .emit(r: {src})\n");
+            let program = varpulis_parser::parse(&vpl).ok()?;
+            let (tx, rx) = tokio::sync::mpsc::channel::<Event>(100000);
+            let mut engine = varpulis_runtime::engine::Engine::new(tx);
+            engine.load(&program).ok()?;
+            Some((engine, rx))
+        };
+        let mut eng = src.as_ref().and_then(|s| mk_engine(s));
+        if src.is_some() && eng.is_none() { rep.count("shapes_not_loadable_as_vpl", 1); }
+        for c in cs {
+            let mut ev = Event::new("B");
+            for (f, key) in [("x", "x"), ("y", "y"), ("z", "z")] {
+                if let Some(v) = tot_value(c[key].as_str().unwrap()) { ev = ev.with_field(f, v); }
+            }
+            let small = json!({"expr": src.clone().unwrap_or_else(|| format!("{k}:{op}")), "x": c["x"], "y": c["y"], "z": c["z"]});
+            let r = catch(|| eval_expr_with_functions(&expr, &ev, SequenceContext::empty(), &fns, &binds));
+            rep.case(&small, matches!(r, Ok(Some(_))));
+            if c["ovf"].as_bool().unwrap() { rep.count("overflow_cases", 1); }
+            if let Err(p) = &r {
+                rep.violation(&["C11"], &format!("evaluator panicked: {p}"), &small, json!("a value or no value"), json!("panic"));
+            }
+            if let Some((engine, rx)) = eng.as_mut() {
+                rep.count("engine_events", 1);
+                let pr = catch(|| cx.rt.block_on(engine.process(ev.clone())));
+                while rx.try_recv().is_ok() {}
+                if let Err(p) = pr {
+                    if r.is_ok() {
+                        rep.violation(&["C11"], &format!("engine (.where/.emit) panicked: {p}"), &small, json!("a value or no value"), json!("panic"));
+                    }
+                    eng = src.as_ref().and_then(|s| mk_engine(s)); // the engine may be poisoned by the unwind
+                }
+            }
+        }
+    }
+    rep.write(&args[1]);
+}
